@@ -1,5 +1,5 @@
 /* Lock-step harness for src/fiber_barrier.c on the T1 machine (C12).
- * params: dmax, count.  A fiber's program = one op ("wait") per consecutive
+ * params: dmax, count [, lists: ignored here].  A fiber's program = one op ("wait") per consecutive
  * round.  Before its k-th call the fiber emits (k, K_EV, 1) "entered round k",
  * after it (k, K_RET, r) with r = return value (1 = serial fiber). */
 #include "harness.h"
@@ -27,20 +27,27 @@ static void h_run_case(hcase_t* c) {
   if (count < 1 || n < 1) { printf("-1\n"); return; }
   memset(nodes, 0, sizeof nodes);
   t1_setup(n);
-  /* barrier by hand, mirroring fiber_barrier_init, with the stub node from our array */
+  /* barrier by hand, mirroring fiber_barrier_init, with the stub nodes from our array.
+   * `waiters` is an array of two lists in the repaired code (one list in the
+   * original): address it as an array of mpsc_fifo_t whatever its declared shape,
+   * so that this harness also builds against a tree with the fix reverted. */
+  mpsc_fifo_t* const w = (mpsc_fifo_t*)&bar.waiters;
+  const int nlists = (int)(sizeof bar.waiters / sizeof(mpsc_fifo_t));
   bar.count = (uint32_t)count;
   bar.counter = 0;
-  bar.waiters.head = &nodes[0]; bar.waiters.tail = &nodes[0];
+  for (int q = 0; q < nlists; q++) {
+    w[q].head = &nodes[q]; w[q].tail = &nodes[q];
+    rt_reg((void*)&w[q].head, 8, 301 + 10 * q, 8);
+    rt_reg((void*)&w[q].tail, 8, 302 + 10 * q, 8);
+  }
   for (int t = 0; t < n; t++) {
     fiber_t* f = t1_fiber_of(t);
     free(f->mpsc_fifo_node);
-    f->mpsc_fifo_node = &nodes[1 + t];
+    f->mpsc_fifo_node = &nodes[2 + t];
     rt_reg((void*)&f->state, 4, 200 + t, 4);
     rt_name(f, sizeof *f, 1000 + t, sizeof *f);
   }
   rt_reg((void*)&bar.counter, sizeof bar.counter, 300, sizeof bar.counter);
-  rt_reg((void*)&bar.waiters.head, 8, 301, 8);
-  rt_reg((void*)&bar.waiters.tail, 8, 302, 8);
   rt_reg(nodes, sizeof nodes, 100, 8);
   rt_name(nodes, sizeof nodes, 1, sizeof nodes[0]);
   t1_run(n, prog, c->sched, c->nsched, dmax);
